@@ -1,5 +1,5 @@
 #!/usr/bin/env python3
-"""C11 -- converters: text output is the tree's text; XML is well-formed and faithful (DESIGN.md 3.C11)."""
+"""C11 -- converters: text output is the tree's text; XML is well-formed and faithful (DESIGN.md section 4, C11)."""
 import io
 import os
 import sys
@@ -44,7 +44,7 @@ MANIFEST_ENTRY = {
             "pages/page/figure*/textbox/textline/text/layout/textgroup is well nested with nothing left open; glyph text and "
             "font/figure names round-trip through the output.",
     "note": "Trusted: Coq kernel, hand model tied by exact differential runs, expat as reference reader.",
-    "design_ref": "DESIGN.md 3.C11",
+    "design_ref": "DESIGN.md section 4, C11",
 }
 
 SPECIAL = ["<", ">", "&", '"', "'", "a", "b", " ", "\xe9", "]]>", "&amp;", "<x>"]
